@@ -287,7 +287,7 @@ def judge_geff(case, wd, rng):
 
 
 def plan(tier, seed):
-    n = 1200 if tier == "quick" else 20000
+    n = 1200 if tier == "quick" else 12000
     return [{"kind": "cases", "n": n // 16, "seed": common.seed_for(PROP, tier, seed, i)}
             for i in range(16)]
 
